@@ -237,7 +237,8 @@ class SymbolFinder:
 		if not isinstance(import_raw.node, defs.ImportAsName):
 			return None
 
-		imported_dsn = ModuleDSN.full_join(import_raw.types.module_path, import_raw.node.domain_name)
+		# XXX インポート元のモジュールでの名称はエイリアスではなく実体名
+		imported_dsn = ModuleDSN.full_join(import_raw.types.module_path, import_raw.node.entity_symbol.tokens)
 		return self.__find_raw_recursive(db, imported_dsn, elems[1:])
 
 	def __find_library_raw(self, db: SymbolDB, domain_name: str) -> IReflection | None:
